@@ -1,5 +1,5 @@
 import ApolloModel.Proofs.ParserWhole
-import ApolloModel.Proofs.ParserType5
+import ApolloModel.Proofs.ParserType10
 /-
 C07 — Standalone type and field-set parsing consume the whole input.
 Parser model of C01 with the repaired entry points (`expect_end_of_input`).
@@ -14,12 +14,12 @@ theorem standalone_whole_input (e : Entry) (he : e = .type ∨ e = .selectionSet
     (parse e none rl src).leftover = [] :=
   Parse.standalone_whole_input e he rl src root h herr
 
-/-- PARTIAL: for `parse_selection_set` what remains is that the consumed tokens form exactly one selection
-    set (decided by the harness against an independent recogniser); for `parse_type` that half is now the
-    theorem `type_accept_sound` below.  The statement kept here is freedom from the two model aborts
-    (fuel / progress assertion), see C01. -/
-def whole_input_is_one_construct_statement : Prop :=
-  ∀ (rl : Nat) (src : Parse.Str), (parse .type none rl src).errors = [] → ∃ root, (parse .type none rl src).outcome = .tree root
+/-- `parse_type` always ends with a tree (no panic: C01 `parse_no_panic`; no fuel / progress abort:
+    C01 `parse_terminates_partial`), so in particular an error-free parse has one.  (For `parse_selection_set`
+    the corresponding statement still needs the termination of the selection grammar, see C01.) -/
+theorem whole_input_is_one_construct_statement :
+    ∀ (rl : Nat) (src : Parse.Str), (parse .type none rl src).errors = [] → ∃ root, (parse .type none rl src).outcome = .tree root :=
+  fun rl src _ => Parse.parseType_tree none rl src
 
 -- Regression witnesses for the repaired defect (kernel-evaluated on the model)
 example : (parse .type none 500 ['A', ' ', ']', ']', ' ', 'x']).errors ≠ [] := by decide +kernel
@@ -29,42 +29,71 @@ example : (parse .selectionSet none 500 ['{', 'a', '}']).errors = [] := by decid
 
 /-! ### `parse_type`: the whole input is ONE type of the grammar (growth) -/
 
-/-- **Acceptance is sound.**  `Parser::parse_type` without token limit, any recursion limit, any source text:
-    if the parse ends with a tree and reports no error, then the source has no lexer error and its
-    significant tokens (whitespace, comments, commas removed; `srcToks` is the parser's token queue after
-    lexing) are exactly `tTy t` for some type reference `t` of the grammar
+/-- **Acceptance is sound.**  `Parser::parse_type` without token limit, any recursion limit, ANY source text:
+    if the parse reports no error, then the source has no lexer error and its significant tokens (whitespace,
+    comments, commas removed; `srcToks` is the parser's token queue after lexing, see `type_accept_sound_lex`
+    for the lexer model's output) are exactly `tTy t` for some type reference `t` of the grammar
     `Type : NamedType | [Type] | Type!` (unbounded nesting), followed by the end-of-input token.
     Proved by induction on the fuel of `ty.rs::parse` with an invariant relating the tokens consumed so far
-    to the queue (Proofs/ParserType1–5). -/
-theorem type_accept_sound (rl : Nat) (src : Parse.Str) (root : Elem)
-    (h : (parse .type none rl src).outcome = .tree root) (herr : (parse .type none rl src).errors = []) :
+    to the queue (Proofs/ParserType1–6); the outcome is always a tree (`Parse.parseType_tree`). -/
+theorem type_accept_sound (rl : Nat) (src : Parse.Str) (herr : (parse .type none rl src).errors = []) :
     LexClean src ∧ ∃ (t : Ast.Ty) (ts : List Tok) (e : Tok),
       sig (srcToks src) = ts ++ [e] ∧ e.kind = .eof ∧ ts.map astOf = (Ast.tTy t).map some :=
-  Parse.parseType_sound rl src root h herr
+  Parse.parseType_sound' rl src herr
+
+/-- the earlier form, with the (now redundant) hypothesis that the outcome is a tree -/
+theorem type_accept_sound_tree (rl : Nat) (src : Parse.Str) (root : Elem)
+    (_h : (parse .type none rl src).outcome = .tree root) (herr : (parse .type none rl src).errors = []) :
+    LexClean src ∧ ∃ (t : Ast.Ty) (ts : List Tok) (e : Tok),
+      sig (srcToks src) = ts ++ [e] ∧ e.kind = .eof ∧ ts.map astOf = (Ast.tTy t).map some :=
+  type_accept_sound rl src herr
 
 /-- Contrapositive, which is how the known C02 defect (ty.rs drops a token that cannot start a type, e.g.
     `[!`) stays consistent with acceptance: whenever the significant tokens are NOT one type followed by the
     end of input, an error is reported — the dropped token never goes unnoticed. -/
-theorem type_reject_non_type (rl : Nat) (src : Parse.Str) (root : Elem)
-    (h : (parse .type none rl src).outcome = .tree root)
+theorem type_reject_non_type (rl : Nat) (src : Parse.Str)
     (hnot : ¬ ∃ (t : Ast.Ty) (ts : List Tok) (e : Tok),
       sig (srcToks src) = ts ++ [e] ∧ e.kind = .eof ∧ ts.map astOf = (Ast.tTy t).map some) :
     (parse .type none rl src).errors ≠ [] :=
-  fun herr => hnot (Parse.parseType_sound rl src root h herr).2
+  fun herr => hnot (Parse.parseType_sound' rl src herr).2
 
-/-- list nesting of a type reference -/
-def tyDepth : Ast.Ty → Nat
-  | .named _ | .nonNullNamed _ => 0
-  | .list t | .nonNullList t => tyDepth t + 1
+/-- **Acceptance is complete.**  For every type reference `t` whose list nesting is at most the recursion
+    limit: any source text without lexer error whose significant tokens are `tTy t` (names: whatever Name
+    tokens the lexer produced) followed by the end of input, with ignored tokens (whitespace, comments,
+    commas) anywhere EXCEPT in front of the first token, is parsed without any error.
+    (A leading ignored token is rejected by `parse_type`: witness below.) -/
+theorem type_accept_complete (rl : Nat) (src : Parse.Str) (t : Ast.Ty) (ts : List Tok) (e : Tok)
+    (hclean : LexClean src) (hsig : sig (srcToks src) = ts ++ [e]) (he : e.kind = .eof)
+    (hty : ts.map astOf = (Ast.tTy t).map some) (hdepth : Parse.tyDepth t ≤ rl)
+    (hhead : ∀ hd tl, srcToks src = hd :: tl → isIgnoredKind hd.kind = false) :
+    (parse .type none rl src).errors = [] :=
+  Parse.parseType_complete_sig rl src t ts e hclean hsig he hty hdepth hhead
 
-/-- PARTIAL (not proved; evaluated on witnesses below and decided by the harness over all
-    prefix/type/suffix combinations): **completeness** — every type of list depth ≤ the recursion limit, with
-    ignored tokens anywhere except in front, is accepted without error. -/
-def type_accept_complete_statement : Prop :=
-  ∀ (rl : Nat) (src : Parse.Str) (t : Ast.Ty) (ts : List Tok) (e : Tok),
-    LexClean src → sig (srcToks src) = ts ++ [e] → e.kind = .eof → ts.map astOf = (Ast.tTy t).map some →
-    tyDepth t ≤ rl → (∀ x, (srcToks src).head? = some x → isIgnoredKind x.kind = false) →
-    (parse .type none rl src).errors = [] ∧ ∃ root, (parse .type none rl src).outcome = .tree root
+/-! #### the same in terms of the lexer model (`Lex.lex none src`) -/
+
+/-- the parser's token queue is the token list of the lexer model's output (kinds and texts), and the source
+    is "lex-clean" iff that output has no error item -/
+theorem queue_is_lexer_output (src : Parse.Str) :
+    (srcToks src).map (fun t => (t.kind, t.data)) = lexToks src
+    ∧ (LexClean src ↔ ∀ it ∈ Lex.lex none src, it.isErr = false) :=
+  ⟨Parse.srcToks_lex src, Parse.lexClean_lex src⟩
+
+/-- soundness over `Lex.lex none src`: an error-free `parse_type` means no error item and
+    `lexSig src` (the non-ignored tokens of the lexer output) = the tokens of one type, then EOF -/
+theorem type_accept_sound_lex (rl : Nat) (src : Parse.Str) (herr : (parse .type none rl src).errors = []) :
+    (∀ it ∈ Lex.lex none src, it.isErr = false) ∧
+    ∃ (t : Ast.Ty) (ks : List (Lex.Kind × Parse.Str)) (e : Lex.Kind × Parse.Str),
+      lexSig src = ks ++ [e] ∧ e.1 = .eof ∧ ks.map astOfKD = (Ast.tTy t).map some :=
+  Parse.parseType_sound_lex rl src herr
+
+/-- completeness over `Lex.lex none src` -/
+theorem type_accept_complete_lex (rl : Nat) (src : Parse.Str) (t : Ast.Ty)
+    (ks : List (Lex.Kind × Parse.Str)) (e : Lex.Kind × Parse.Str)
+    (hclean : ∀ it ∈ Lex.lex none src, it.isErr = false) (hsig : lexSig src = ks ++ [e]) (he : e.1 = .eof)
+    (hty : ks.map astOfKD = (Ast.tTy t).map some) (hdepth : Parse.tyDepth t ≤ rl)
+    (hhead : ∀ p, (lexToks src).head? = some p → isIgnoredKind p.1 = false) :
+    (parse .type none rl src).errors = [] :=
+  Parse.parseType_complete_lex rl src t ks e hclean hsig he hty hdepth hhead
 
 -- the C02 defect inputs: a token is dropped, and an error is reported
 example : (parse .type none 500 "[!".toList).dropped = true ∧ (parse .type none 500 "[!".toList).errors ≠ [] := by decide +kernel
